@@ -140,8 +140,10 @@ class BatchDatasetC(ClassContract):
         return BatchView(AbsView(f['input_dataset'].t), f['batch_size'].t, f['drop_last'].t)
 
     _gi = _std_getitem_variants(with_key=False, loops={'0': _batch_getitem_inv})
-    _gi[0].requires = lambda S: z3.And(self_view(S).idx, _no_upstream_indexerror(S))
-    _gi[0].post = _batch_getitem_post
+    for _v in _gi[:3]:      # 'int', 'int:np.int8', 'int:np.uint8'
+        assert _v.name.startswith('int')
+        _v.requires = lambda S: z3.And(self_view(S).idx, _no_upstream_indexerror(S))
+        _v.post = _batch_getitem_post
     _gi.append(Variant('int-upstream-indexerror', params={'item': 'int'},
                        requires=lambda S: z3.And(self_view(S).idx, z3.Not(_no_upstream_indexerror(S))),
                        post=_batch_getitem_post, props=('C02',), loops={'0': _batch_getitem_inv}))
